@@ -66,7 +66,9 @@ def corruptions(traces):
     if t:
         ref = copy.deepcopy(t); ref["id"] = 900001; ref["refid"] = None
         c = copy.deepcopy(t); c["id"] = 900002; c["refid"] = 900001
-        c["ev"][idx[-1]]["xh"] = "000000000000"
+        for k, e in enumerate(ref["ev"]):
+            e["dg"] = c["ev"][k]["dg"] = "d%d" % k        # the recorder attaches raw-event digests only for C19 corpora (rng_state given)
+        c["ev"][idx[-1]]["dg"] = "000000000000"
         out.append(("digest_differs_from_reference", "C19", {"identical_to_reference_run"}, [ref, c]))
     return out
 
